@@ -352,6 +352,10 @@ def xml_text(tag, val):
     return "<%s>%s</%s>" % (tag, val, tag)
 
 
+XML_DECLS = ['<?xml version="1.0" encoding="UTF-8"?>\n', '<?xml version="1.0" encoding="UTF-8"?>\n', '<?xml version="1.0"?>', '<?xml version="1.0" encoding="UTF-8"?>\r\n',
+             '<?xml version="1.0"?> ', '<?xml version="1.0"?><!-- c -->', '<?xml version="1.0" standalone="yes"?>\n\n']
+
+
 def render(node):
     """abstract tree -> plain JSON-able value (nested documents become strings)."""
     if isinstance(node, Doc):
@@ -359,11 +363,21 @@ def render(node):
             s = json.dumps(render(node.tree), separators=(",", ":"), sort_keys=True)
         else:
             (root, val), = node.tree.items()
-            s = ('<?xml version="1.0" encoding="UTF-8"?>\n' if node.decl else "") + xml_text(root, render_xml(val))
+            decl = node.decl if isinstance(node.decl, str) else ('<?xml version="1.0" encoding="UTF-8"?>\n' if node.decl else "")
+            s = decl + xml_text(root, render_xml(val))
         if node.b64:
             # markers in a value stand for bytes that are no UTF-8 (a Latin-1 password, a binary token): only a wrapped
             # document can carry them
-            return base64.b64encode(s.encode().replace(b"~L1~", b"\xe9").replace(b"~BIN~", b"\xff\xfe")).decode()
+            t = base64.b64encode(s.encode().replace(b"~L1~", b"\xe9").replace(b"~BIN~", b"\xff\xfe")).decode()
+            # base64 text as mail and PEM tools write it: line feeds every few columns, CRLF, a trailing line feed (the standard
+            # decoder skips CR and LF, and the length is then no multiple of four)
+            if node.b64 == "nl":
+                t = "\n".join(t[i:i + 20] for i in range(0, len(t), 20)) + "\n"
+            elif node.b64 == "crlf":
+                t = "\r\n".join(t[i:i + 76] for i in range(0, len(t), 76))
+            elif node.b64 == "trail":
+                t += "\n"
+            return t
         return s
     if isinstance(node, dict):
         return {k: render(v) for k, v in node.items()}
@@ -415,7 +429,7 @@ def unnest(value, shape):
         s = value
         try:
             if shape.b64:
-                s = base64.b64decode(value, validate=True).decode()
+                s = base64.b64decode(value.replace("\r", "").replace("\n", ""), validate=True).decode()
             if shape.kind == "json":
                 inner = json.loads(s)
             else:
@@ -718,13 +732,16 @@ class RecGen:
 
     def doc(self, depth):
         b64 = self.rng.random() < 0.4
+        if b64 and self.rng.random() < 0.25:
+            b64 = self.rng.choice(["nl", "crlf", "trail"])
         if self.rng.random() < 0.55:
             return Doc("json", b64, self.obj(max(depth, 1), docs=depth > 0))
         root = self.rng.choice(["r", "root", "doc"])
         body = self.xml_elem(2)
         if not isinstance(body, dict):
             body = {"t": body, "x": [self.sstr(), self.sstr()]}
-        return Doc("xml", b64, {root: body}, decl=self.rng.random() < 0.3)
+        # the declaration on a line of its own, on the same line as the root element, before a CRLF, before a comment
+        return Doc("xml", b64, {root: body}, decl=self.rng.choice(XML_DECLS) if self.rng.random() < 0.4 else False)
 
     def record(self):
         rec = self.obj(3)
@@ -995,6 +1012,17 @@ def segs_term(spec):
 def model_comparable(case):
     """Cases the model's correspondence covers: JSON paths and json() hops only, and none of the
     recorded classes whose outcome depends on Go map order (wildcard before a hop)."""
+    def has_cr(t):
+        # the model's JSON text has the escapes quote, backslash, n, t and slash only
+        if isinstance(t, Doc):
+            return (isinstance(t.decl, str) and "\r" in t.decl) or isinstance(t.b64, str) or has_cr(t.tree)
+        if isinstance(t, dict):
+            return any(has_cr(v) for v in t.values())
+        if isinstance(t, list):
+            return any(has_cr(v) for v in t)
+        return False
+    if has_cr(case["tree"]):
+        return False
     for sp in case["specs"]:
         if any(st[0] in ("xml", "xchild", "xidx") for st in sp):
             return False
